@@ -122,7 +122,9 @@ func (vc *VC) callValue(act *Act, st *State, common *ssa.CallCommon, fnVal Val, 
 				}
 				vc.used["auto-pure:"+vc.eng.shortName(callee)] = true
 			} else {
-				touches := len(evs) > 0 || vc.eng.mayReachEvent(callee)
+				// a callee that is itself a declared event is abstracted by that event; any other
+				// callee that can (statically) reach an event site invalidates the ghost state
+				touches := len(evs) == 0 && vc.eng.mayReachEvent(callee)
 				res = vc.defaultCall(act, st, resT, "call "+callee.String(), !touches)
 			}
 		}
@@ -189,7 +191,7 @@ func (vc *VC) defaultCall(act *Act, st *State, resT types.Type, why string, keep
 		if !ok {
 			n := vc.counts["frame#call-noframe"]
 			vc.counts["frame#call-noframe"]++
-			vc.oblige(st, &Obligation{Name: fmt.Sprintf("frame#callee-without-frame#%s#%d", sanitize(why), n), Kind: "frame", Tags: vc.frameTags(), Clause: "callee " + why + " has no contract: default frame is 'everything'"}, "false")
+			vc.oblige(st, &Obligation{Name: fmt.Sprintf("%s#frame#callee-without-frame#%s#%d", vc.eng.shortName(vc.root), sanitize(why), n), Kind: "frame", Tags: vc.frameTags(), Clause: "callee " + why + " has no contract: default frame is 'everything'"}, "false")
 		}
 	}
 	vc.havocAll(st, why)
@@ -361,7 +363,7 @@ func (vc *VC) builtin(act *Act, st *State, bi *ssa.Builtin, common *ssa.CallComm
 			f := or(eq(n, "0"), vc.inFrame(dst.ref, "", ""))
 			k := vc.counts["frame#copy"]
 			vc.counts["frame#copy"]++
-			vc.oblige(st, &Obligation{Name: fmt.Sprintf("frame#copy#%d", k), Kind: "frame", Src: vc.srcPos(site.Pos()), Tags: vc.frameTags(), Clause: "modifies " + vc.frameText()}, f)
+			vc.oblige(st, &Obligation{Name: fmt.Sprintf("%s#frame#copy#%d", vc.eng.shortName(vc.root), k), Kind: "frame", Src: vc.srcPos(site.Pos()), Tags: vc.frameTags(), Clause: "modifies " + vc.frameText()}, f)
 		}
 		vc.rangeWrite(st, dst.ref, fmt.Sprintf("(* %s %d)", dst.off, w), fmt.Sprintf("(* %s %d)", n, w), src.ref, fmt.Sprintf("(* %s %d)", src.off, w))
 		return IntV{n}
@@ -385,7 +387,7 @@ func (vc *VC) builtin(act *Act, st *State, bi *ssa.Builtin, common *ssa.CallComm
 			f := or(eq(more.ln, "0"), vc.inFrame(base.ref, "", ""))
 			k := vc.counts["frame#append"]
 			vc.counts["frame#append"]++
-			vc.oblige(sa, &Obligation{Name: fmt.Sprintf("frame#append-in-place#%d", k), Kind: "frame", Src: vc.srcPos(site.Pos()), Tags: vc.frameTags(), Clause: "modifies " + vc.frameText(),
+			vc.oblige(sa, &Obligation{Name: fmt.Sprintf("%s#frame#append-in-place#%d", vc.eng.shortName(vc.root), k), Kind: "frame", Src: vc.srcPos(site.Pos()), Tags: vc.frameTags(), Clause: "modifies " + vc.frameText(),
 				Info: map[string]string{"replay": "append", "base_len": base.ln, "base_cap": base.cp, "more_len": more.ln}}, f)
 		}
 		vc.rangeWrite(sa, base.ref, fmt.Sprintf("(* (+ %s %s) %d)", base.off, base.ln, w), fmt.Sprintf("(* %s %d)", more.ln, w), more.ref, fmt.Sprintf("(* %s %d)", more.off, w))
@@ -566,7 +568,7 @@ func (vc *VC) callFrameCheck(act *Act, st *State, items []frameItem, what string
 		}
 		k := vc.counts["frame#call#"+what]
 		vc.counts["frame#call#"+what]++
-		vc.oblige(st, &Obligation{Name: fmt.Sprintf("frame#call#%s#%s#%d", sanitize(what), sanitize(it.text), k), Kind: "frame", Src: vc.srcPos(site.Pos()), Tags: vc.frameTags(), Clause: fmt.Sprintf("callee %s modifies %s; caller modifies %s", what, it.text, vc.frameText())}, f)
+		vc.oblige(st, &Obligation{Name: fmt.Sprintf("%s#frame#call#%s#%s#%d", vc.eng.shortName(vc.root), sanitize(what), sanitize(it.text), k), Kind: "frame", Src: vc.srcPos(site.Pos()), Tags: vc.frameTags(), Clause: fmt.Sprintf("callee %s modifies %s; caller modifies %s", what, it.text, vc.frameText())}, f)
 	}
 }
 
@@ -656,11 +658,24 @@ func (vc *VC) applyEvent(act *Act, st *State, pre *State, ev *Event, args []Val,
 	// updates are simultaneous: evaluate all right-hand sides first
 	vals := make([]string, len(ev.Do))
 	for k, d := range ev.Do {
-		tv := env.evalTV(d.Expr)
-		vals[k] = flatten(tv.v)[0]
+		func() {
+			defer func() {
+				if r := recover(); r != nil {
+					if _, ok := r.(specError); ok && res == nil {
+						vals[k] = "" // refers to a result that does not exist on this edge
+						return
+					}
+					panic(r)
+				}
+			}()
+			tv := env.evalTV(d.Expr)
+			vals[k] = flatten(tv.v)[0]
+		}()
 	}
 	for k, d := range ev.Do {
-		st.ghost[d.Name] = vc.def("gh_"+d.Name, "Int", vals[k])
+		if vals[k] != "" {
+			st.ghost[d.Name] = vc.def("gh_"+d.Name, "Int", vals[k])
+		}
 	}
 }
 
@@ -711,6 +726,25 @@ func (vc *VC) intrinsic(act *Act, st *State, callee *ssa.Function, args []Val, a
 		r := vc.freshVal(st, "err", resT).(IfaceV)
 		vc.assume(st, not(eq(r.tag, "0")))
 		return r, true
+	case "fmt.Sprintf", "fmt.Sprint":
+		// congruence: equal format and equal (boxed) arguments give equal strings
+		var leaves []string
+		for _, a := range args {
+			switch x := a.(type) {
+			case IntV:
+				leaves = append(leaves, x.t)
+			case SliceV:
+				n, err := parseInt(x.ln)
+				if err != nil || n > 4 {
+					return IntV{vc.fresh("str", "Int")}, true
+				}
+				for k := int64(0); k < n; k++ {
+					el := vc.load(st, PtrV{x.ref, fmt.Sprintf("(* (+ %s %d) 2)", x.off, k)}, types.NewInterfaceType(nil, nil)).(IfaceV)
+					leaves = append(leaves, el.tag, el.box)
+				}
+			}
+		}
+		return IntV{vc.def("fmt", "Int", vc.uf(fmt.Sprintf("sprintf%d", len(leaves)), leaves...))}, true
 	}
 	_ = token.NoPos
 	return nil, false
